@@ -105,9 +105,15 @@ func (am AppModule) OnRecvPacket(
 
 	acknowledgement := packettypes.NewResultAcknowledgement([]byte{byte(1)})
 
-	err := am.keeper.OnRecvPacket(ctx, packet, data)
+	// run the application logic on a branch of the state and keep its writes only on
+	// success: a packet answered with an error acknowledgement must leave no token
+	// effects behind, also when the failure comes after partial writes
+	cacheCtx, writeCache := ctx.CacheContext()
+	err := am.keeper.OnRecvPacket(cacheCtx, packet, data)
 	if err != nil {
 		acknowledgement = packettypes.NewErrorAcknowledgement(err.Error())
+	} else {
+		writeCache()
 	}
 
 	ctx.EventManager().EmitEvent(
